@@ -59,15 +59,19 @@ Fixpoint canon (b : dblock) {struct b} : list dblock :=
     match l with
     | [] => []
     | it :: r =>
-        (match it with
+        (* the heading rule is applied to what is LEFT of the item once the blocks that carry
+           nothing are gone (`+ +` / `  # h`: an empty inner list, then a heading - written
+           `- # h`, where the heading leads the item) *)
+        (let lead (l : list dblock) : list dblock :=
+           match l with DHeader lr _ il :: rest => DPara lr il :: rest | _ => l end in
+         match it with
          | [] => []
-         | DHeader lr _ il :: rest => [DPara lr il :: go rest]
          | ((DBList _ | DOList _) as first) :: rest =>
              match go rest with
              | [] => match canon first with [DBList inner] | [DOList inner] => inner | _ => [] end
-             | s => [canon first ++ s]
+             | s => [lead (canon first ++ s)]
              end
-         | _ => match go it with [] => [] | s => [s] end
+         | _ => match go it with [] => [] | s => [lead s] end
          end) ++ items r
     end in
   match b with
